@@ -59,6 +59,8 @@ structure St where
   qEmu : Option VaxisModel.Model.Emu.Emu := none
   qOps : List VaxisModel.Model.Emu.EOp := []
   qReplies : List VaxisModel.Model.Input.Seq := []
+  /-- reply exchange: the background colour the attached host reports (`replies`' `hostBg`) -/
+  qBg : Option (Nat × Nat × Nat) := none
   /-- the application's screen and cursor of the frame just rendered (for the read-back verdict) -/
   want : Option (List (List DCell) × Option (Int × Int × Int)) := none
   deriving Inhabited
@@ -143,25 +145,31 @@ def widthNote (exp emu : List (List DCell)) (v : String) : String :=
 def names : List String := ["sixels", "synchronizedUpdate", "unicodeCore", "colorThemeUpdates", "kittyKeyboard", "kittyGraphics", "rgb",
   "styledUnderlines", "osc4", "osc10", "osc11", "osc176", "reportSizePixels", "reportSizeChars", "inBandResize", "explicitWidth", "noZWJ"]
 
-/-- Features the emulator implements (widgets/term: sixel DCS, direct-colour and styled-underline SGR, grapheme clustering). -/
-def implemented : List String := ["sixels", "rgb", "styledUnderlines", "unicodeCore"]
+/-- Features the emulator implements (widgets/term: sixel DCS, direct-colour and styled-underline SGR, grapheme clustering,
+    the OSC 11 background query through its host). -/
+def implemented : List String := ["sixels", "rgb", "styledUnderlines", "unicodeCore", "osc11"]
 
 def step (s : St) (line : String) : St × String :=
   let (op, impl) := splitTab line
   match fields op with
   | "#case" :: _ => ({}, "-\t-\t-")
-  | ["emuqstart", w, h] =>
+  | "emuqstart" :: w :: h :: host =>
+      -- `host`: nothing = no host Vaxis attached; "-" = attached, background unknown; r g b = attached, background known
       match w.toInt?, h.toInt? with
       | some w, some h =>
         match VaxisModel.Model.Emu.Emu.new VaxisModel.Model.Emu.Fixes.current w h with
-        | .ok e => ({ s with qEmu := some e, qOps := [], qReplies := [] }, "-\t-\t-")
+        | .ok e =>
+          let bg : Option (Nat × Nat × Nat) := match host.map String.toNat? with
+            | [some r, some g, some b] => some (r, g, b)
+            | _ => none
+          ({ s with qEmu := some { e with hasVx := !host.isEmpty }, qOps := [], qReplies := [], qBg := bg }, "-\t-\t-")
         | .error _ => (s, C01.bad3)
       | _, _ => (s, C01.bad3)
   | "emuquery" :: rest =>
       match VaxisModel.Model.EmuIO.parseOp? (" ".intercalate rest), s.qEmu with
       | some (.op o), some e =>
         if o matches .c0 0 then (s, "-\t-\t-") else      -- padding NULs of the console buffer
-        let rs := VaxisModel.Model.C12Replies.replies none e o
+        let rs := VaxisModel.Model.C12Replies.replies s.qBg e o
         let mb := hexOfBytes (rs.flatMap VaxisModel.Model.C12Replies.seqBytes)
         let ib := if impl = "" then "-" else impl
         let e' := match VaxisModel.Model.Emu.emuStep e o with
